@@ -629,6 +629,36 @@ def concrete_expr(e, env, consts=None):
         return concrete_expr(e.args[1] if concrete_expr(e.args[0], env, consts) else e.args[2], env, consts)
     if isinstance(e, ast.Call) and norm(e.func) in ("int", "Constant") and e.args:
         return concrete_expr(e.args[0], env, consts)
+    if isinstance(e, ast.Call) and norm(e.func) == "Reduce" and len(e.args) == 2 and isinstance(e.args[0], ast.Constant) and \
+            e.args[0].value in ("OR", "AND", "XOR", "ADD") and not e.keywords:
+        # Reduce(op, [x == c for c in <literal list>]) / Reduce(op, [a, b, c]): the fold of the elements
+        lst = e.args[1]
+        elems = None
+        if isinstance(lst, (ast.List, ast.Tuple)):
+            elems = [concrete_expr(x, env, consts) for x in lst.elts]
+        elif isinstance(lst, (ast.ListComp, ast.GeneratorExp)) and len(lst.generators) == 1 and not lst.generators[0].ifs and \
+                isinstance(lst.generators[0].target, ast.Name):
+            it = lst.generators[0].iter
+            vals = None
+            if isinstance(it, (ast.List, ast.Tuple)) and all(isinstance(x, ast.Constant) for x in it.elts):
+                vals = [x.value for x in it.elts]
+            elif isinstance(it, ast.Name) and isinstance(consts.get(it.id), (list, tuple)):
+                vals = list(consts[it.id])
+            elif isinstance(it, ast.Call) and norm(it.func) == "range" and all(isinstance(x, ast.Constant) for x in it.args):
+                vals = list(range(*[x.value for x in it.args]))
+            if vals is not None:
+                v_ = lst.generators[0].target.id
+                elems = []
+                for c in vals:
+                    c2 = dict(consts)
+                    c2[v_] = c
+                    e2 = {k: w for k, w in env.items()}
+                    elems.append(concrete_expr(lst.elt, e2, c2))
+        if elems is None:
+            raise NotConcrete(t)
+        import functools
+        op = {"OR": lambda a, b: a | b, "AND": lambda a, b: a & b, "XOR": lambda a, b: a ^ b, "ADD": lambda a, b: a + b}[e.args[0].value]
+        return functools.reduce(op, elems) if elems else 0
     raise NotConcrete(t)
 
 
